@@ -181,6 +181,53 @@ def _ambiguous(cx, snaps):
     return False
 
 
+@harness(labels=['no-call-raises', 'every-call-returns', 'relay-delivers'])
+def relay(cx, max_preempt):
+    """One thread forwards what is pending on a sub-port to the MultiPort from INSIDE its iteration over
+    iter_pending(), another thread polls the MultiPort: two locks are taken in both orders only if a lock is
+    held across a yield."""
+    import mido
+    from mido import ports
+    with World(cx, max_preempt) as S:
+        sub1, sub2 = ports.EchoPort(), ports.EchoPort()
+        multi = ports.MultiPort([sub1, sub2])
+        m = sym_note(cx, mido, 'r_', 3)
+        sub1.send(m)
+        got = []
+
+        def forwarder():
+            for x in sub1.iter_pending():
+                multi.send(x)
+                break                     # (one message: the MultiPort echoes into sub1 again)
+
+        def poller():
+            for _ in range(2):
+                y = multi.poll()
+                if y is not None:
+                    got.append(y)
+        ths = [S.spawn(forwarder, 'forwarder'), S.spawn(poller, 'poller')]
+        try:
+            S.run()
+        except sc.Stuck as e:
+            cx.fail('every-call-returns', detail='%s; schedule=%s' % (e, S.trace[-40:]))
+            return
+        for t in ths:
+            if t.exc is not None:
+                cx.fail('no-call-raises:%s' % type(t.exc).__name__, detail='%r in %s' % (t.exc, t.name))
+                return
+        cx.reach('no-call-raises')
+        cx.reach('every-call-returns')
+        rest = []
+        for _ in range(8):
+            y = multi.poll()
+            if y is None:
+                break
+            rest.append(y)
+        allm = got + rest
+        cx.check(len(allm) >= 1 and cx.And(*[cx.And(cx.eq(y.note, m.note), cx.eq(y.velocity, m.velocity)) for y in allm]),
+                 'relay-delivers')
+
+
 @harness(labels=['no-call-raises', 'every-call-returns', 'queue-exactly-once-intact'])
 def parser_queue(cx, nput, max_preempt):
     """backends._parser_queue.ParserQueue: concurrent put_bytes of whole
@@ -228,7 +275,7 @@ BOUNDS = {
              '_parser_queue.py and the device double; calls into parser/tokenizer/message code are atomic) of programs with 1-2 senders x 1-2 messages and 1-2 receivers using '
              'receive / poll / iter_pending (plus two senders alone with one more preemption), on a lock-protected byte-wise device port, EchoPort, the IOPort wrapper over the '
              'device port and a MultiPort over two EchoPorts; message contents (note, velocity) symbolic; the sender mutates its '
-             'message after send() returned; ParserQueue with 2 concurrent put_bytes and a poller (here every line of parser.py and tokenizer.py is a yield point too)',
+             'message after send() returned; a forwarder thread that sends to a MultiPort from inside its iteration over a sub-port while another thread polls; ParserQueue with 2 concurrent put_bytes and a poller (here every line of parser.py and tokenizer.py is a yield point too)',
     'thorough': '<=2 preemptions for all programs on the device port, EchoPort and IOPort (MultiPort programs stay at 1: its '
                 'polling loop has several times more yield points); 3 senders; 2 messages per sender with 2 receivers',
 }
@@ -273,8 +320,9 @@ def JOBS(tier):
         for kind in ('wire', 'echo'):
             jobs.append((concurrent, {'kind': kind, 'program': (3, 1, 1, 'receive'), 'max_preempt': 2},
                          {'cost': 500, 'use_trace': False}))
-            jobs.append((concurrent, {'kind': kind, 'program': (2, 2, 2, 'receive'), 'max_preempt': 2},
-                         {'cost': 500, 'use_trace': False}))
+            jobs.append((concurrent, {'kind': kind, 'program': (2, 2, 2, 'receive'), 'max_preempt': 2,
+                                      'free_choices': False}, {'cost': 500, 'use_trace': False}))
+    jobs.append((relay, {'max_preempt': p}, {'cost': 300, 'use_trace': False}))
     jobs.append((parser_queue, {'nput': 2, 'max_preempt': p}, {'cost': 50, 'use_trace': False}))
     jobs.append((parser_queue, {'nput': 1, 'max_preempt': p}, {'use_trace': False}))
     return jobs
